@@ -117,7 +117,8 @@ _codec_check(
     {"quick": 50000, "thorough": 1000000}, ["c04_differential_decodes", "c04_accepted_and_value_compared", "c04_single_defect_categories_compared", "c04_inputs_reference_accepts", "c04_inputs_reference_rejects"],
     "exploration: 10^5-10^7 structure-aware hostile inputs per run, each decided exactly against an independent schema-directed decoder; the input language is infinite so sampling directed by field annotations is the reachable level.",
     "trusts ref/refcodec.h as the statement of docs/format.md; two documented ambiguities resolved as in DESIGN.md 2.3 (variant index is INT32; duplicate-key maps compared on accept/consumed only)",
-    "differential decoding against an independent reference decoder under ASan/UBSan")
+    "differential decoding against an independent reference decoder under ASan/UBSan; coverage-guided libFuzzer stage in the thorough tier",
+    fuzz="engines/codec/fuzz.cpp")
 
 _codec_check(
     "C02", "exploration",
@@ -128,7 +129,8 @@ _codec_check(
     {"quick": 50000, "thorough": 1000000}, ["c02_monitored_decodes", "c02_failed_reads_followed_by_reread", "max_peak_alloc_bytes"],
     "exploration under sanitizers: 10^5-10^7 hostile inputs each executed under ASan/UBSan with an armed allocation cap and a watchdog; memory safety is decided for the executions produced, not for all inputs.",
     "ASan red zones miss non-adjacent overflows (mitigated by dedicated exact-size allocations); the allocation cap is two orders of magnitude above legitimate use",
-    "ASan/UBSan + allocation meter + watchdog over structure-aware hostile inputs")
+    "ASan/UBSan + allocation meter + watchdog over structure-aware hostile inputs; coverage-guided libFuzzer stage in the thorough tier",
+    fuzz="engines/codec/fuzz.cpp")
 
 _codec_check(
     "C05", "fault_enumeration",
